@@ -512,10 +512,16 @@ def random_table(rng: random.Random) -> tuple[dict, bool]:
     postfix operators; now and then a name declared in several tables.  -> (table, overlapping)"""
     levels = rng.randint(1, 4)
     values = sorted(rng.sample(range(0, 9), levels)) if rng.random() < 0.5 else list(range(levels))
+    pre_n, post_n, inf_n = PRE_NAMES[: rng.choice([0, 1, 1, 2])], POST_NAMES[: rng.choice([0, 1, 1, 2])], INF_NAMES[: rng.choice([1, 2, 2, 3])]
+    if rng.random() < 0.35:
+        # rule names that contain one another, declared in any order: a table is looked up by the whole name
+        pre_n = rng.sample(["neg", "not", "bit_not", "n", "ne"], rng.choice([0, 1, 2]))
+        post_n = rng.sample(["fac", "opt", "fact", "f", "op"], rng.choice([0, 1, 2]))
+        inf_n = rng.sample(["add", "and", "bit_and", "ad", "d", "pow", "power", "ow", "or", "xor"], rng.choice([2, 2, 3]))
     tbl = {
-        "pre": {n: rng.choice(values) for n in PRE_NAMES[: rng.choice([0, 1, 1, 2])]},
-        "post": {n: rng.choice(values) for n in POST_NAMES[: rng.choice([0, 1, 1, 2])]},
-        "inf": {n: [rng.choice(values), rng.random() < 0.5] for n in INF_NAMES[: rng.choice([1, 2, 2, 3])]},
+        "pre": {n: rng.choice(values) for n in pre_n},
+        "post": {n: rng.choice(values) for n in post_n},
+        "inf": {n: [rng.choice(values), rng.random() < 0.5] for n in inf_n},
     }
     overlapping = rng.random() < 0.25
     if overlapping:
